@@ -189,6 +189,23 @@ pub fn prelude_currencies_ctx() -> Context {
         .clone()
 }
 
+static ALL: OnceLock<Mutex<Context>> = OnceLock::new();
+
+/// A session with `use all` (every standard-library module, currencies with test rates).
+pub fn all_ctx() -> Context {
+    ALL.get_or_init(|| {
+        let mut ctx = fresh_builtin_ctx();
+        let r = run(&mut ctx, "use all");
+        if !r.is_ok() {
+            panic!("`use all` failed to load: {:?}", r.err_string());
+        }
+        Mutex::new(ctx)
+    })
+    .lock()
+    .unwrap()
+    .clone()
+}
+
 /// In-memory module importer (public trait of numbat).
 #[derive(Clone, Default)]
 pub struct MemImporter {
@@ -343,6 +360,16 @@ pub fn run_as(ctx: &mut Context, code: &str, source: CodeSource) -> RunResult {
         statements,
         last_type,
     }
+}
+
+/// Evaluate `expr` and return its *raw* value (no result simplification): binds it to a global
+/// and reads the VM stack slot through the verification hook.  Modifies `ctx`.
+pub fn raw_eval(ctx: &mut Context, expr: &str) -> Option<Value> {
+    let r = run(ctx, &format!("let vfq_raw_value = {expr}"));
+    if !r.is_ok() {
+        return None;
+    }
+    ctx.verif_raw_global("vfq_raw_value")
 }
 
 pub fn plain(m: &numbat::markup::Markup) -> String {
